@@ -6,6 +6,7 @@
    ([extraction_of], [ICopy]); the harness exercises that on generated trees. *)
 From Coq Require Import List NArith Bool.
 From Conductor Require Import Lib.Str Model.Archive Proofs.ArchiveProofs.
+From Conductor Require Import Gen.Generated Model.ArchiveOut Proofs.ArchiveOutProofs Proofs.GenTieArchive.
 Import ListNotations.
 Open Scope N_scope.
 
@@ -81,6 +82,80 @@ Theorem C11_source_unchanged : forall g target latest P,
   p_stage (fst (archive g target latest P)) = p_stage P.
 Proof. exact archive_source_unchanged. Qed.
 Print Assumptions C11_source_unchanged.
+
+(* "Archiving never changes the source project's recorded versions or outputs" -- also when `cond archive` REFUSES or
+   FAILS.  Model/ArchiveOut.v: what the file system answers about the -o argument when the command starts (given?
+   exists? a directory? parent exists? parent a directory?) and which step of archive.main raises (any, or none) are
+   arbitrary.
+   (1) When handle_output_path refuses (-o names an existing file, or a path whose parent is no directory) nothing at
+       all is touched: the only step entered is handle_output_path itself.
+   (2) A failure in one of the three steps before the try block (bad identifier, task not found, cycle, nothing
+       archivable in the closure) touches no file either.
+   (3) An existing regular file named by -o is never written and never removed, whichever step fails.
+   (4) The handler's unlink of the output file (step 11) happens only when the command had ACCEPTED the output location:
+       -o absent or a directory (a generated name is used), or a path that did not exist when the command started. *)
+Theorem C11_refused_archive_touches_nothing : forall p f,
+  refused (handle_output_path p) = true ->
+  archive_main p f = [1] /\ existsb touches_files (archive_main p f) = false.
+Proof. intros p f H. split; [exact (refused_trace p f H)|exact (refused_touches_nothing p f H)]. Qed.
+Print Assumptions C11_refused_archive_touches_nothing.
+
+Theorem C11_early_failure_touches_nothing : forall p k, (k < 3)%nat ->
+  existsb touches_files (archive_main p (Some k)) = false.
+Proof. exact early_failure_touches_nothing. Qed.
+Print Assumptions C11_early_failure_touches_nothing.
+
+Theorem C11_existing_file_is_never_written_or_removed : forall p f,
+  o_given p = true -> o_exists p = true -> o_is_dir p = false ->
+  existsb writes_output (archive_main p f) = false /\ existsb removes_output (archive_main p f) = false.
+Proof. exact existing_file_is_safe. Qed.
+Print Assumptions C11_existing_file_is_never_written_or_removed.
+
+Theorem C11_output_removed_only_if_it_was_absent : forall p f,
+  existsb removes_output (archive_main p f) = true ->
+  o_given p = false \/ (o_exists p = true /\ o_is_dir p = true) \/
+  (o_exists p = false /\ o_parent_exists p = true /\ o_parent_is_dir p = true).
+Proof. exact unlink_only_what_was_absent. Qed.
+Print Assumptions C11_output_removed_only_if_it_was_absent.
+
+(* the temporary index cond-out/version_index_archive.sqlite never outlives the command; a failure inside the try
+   block is followed by the removal of the (partial) output file, the re-raise and the removal of the index *)
+Theorem C11_temporary_index_is_removed : forall p f,
+  existsb (fun c => c =? 5) (archive_main p f) = true -> last (archive_main p f) 0 = 4.
+Proof. exact temp_index_removed. Qed.
+Print Assumptions C11_temporary_index_is_removed.
+
+Theorem C11_failure_inside_the_try_cleans_up : forall p k, refused (handle_output_path p) = false -> (3 <= k)%nat ->
+  exists pre, archive_main p (Some k) = [1;2;3] ++ pre ++ [11; 12; 4] /\ firstn (S (k - 3)) steps_try = pre.
+Proof. exact failure_in_try_cleans_up. Qed.
+Print Assumptions C11_failure_inside_the_try_cleans_up.
+
+(* Tie to the sources, re-checked on every run: the decision of handle_output_path and the order of the steps of
+   archive.main (before the try block / inside it / bare except / finally) are the ones TRANSLATED from cli/archive.py
+   of the working tree, and create_archive has the one shape in which `tar czf` is the only writer of the output file.
+   Moving the existence test into the try block (seed C11/i), another test order in handle_output_path, a handler that
+   no longer re-raises, or a second statement touching the output file breaks these obligations. *)
+Theorem C11_archive_output_is_the_sources :
+  (forall p, decision_code (handle_output_path p) =
+             gen_archive_output_decision (o_given p) (o_exists p) (o_is_dir p) (o_parent_exists p) (o_parent_is_dir p)) /\
+  steps_before_try = gen_archive_before_try /\ steps_try = gen_archive_try /\
+  steps_on_error = gen_archive_on_error /\ steps_finally = gen_archive_finally /\
+  gen_archive_tar_is_the_only_writer = true.
+Proof. split; [exact archive_output_tie|exact archive_steps_tie]. Qed.
+Print Assumptions C11_archive_output_is_the_sources.
+
+(* non-vacuity: `-o backup.tar.gz` with backup.tar.gz present is refused with one step; `-o new.tar.gz` (absent, parent a
+   directory) whose tar fails enters 1..9, removes the partial file, re-raises and removes the index; success ends with
+   the removal of the index *)
+Example C11_archive_out_nonvacuous :
+  let existing := {| o_given := true; o_exists := true; o_is_dir := false; o_parent_exists := true; o_parent_is_dir := true |} in
+  let fresh := {| o_given := true; o_exists := false; o_is_dir := false; o_parent_exists := true; o_parent_is_dir := true |} in
+  handle_output_path existing = OErrExists /\ archive_main existing None = [1] /\
+  handle_output_path fresh = OGiven /\
+  archive_main fresh (Some 8%nat) = [1;2;3;4;5;6;7;8;9;11;12;4] /\
+  archive_main fresh (Some 1%nat) = [1;2] /\
+  archive_main fresh None = [1;2;3;4;5;6;7;8;9;10;4].
+Proof. repeat split; reflexivity. Qed.
 
 (* non-vacuity: g -> [e1, mid], mid -> [e1, e2] (mid not archivable), two versions of e1;
    `archive //:g --latest` selects g@6, e2@5, e1@7 and restoring into an empty project works *)
